@@ -19,14 +19,16 @@ EXPLANATION = (
     "so they concretise). For every path class z3 shows: locations strictly increase from 0 to len(seq); divisions[i] is the "
     "value at locations[i] and the last division is the last value; no interior boundary separates two equal values; exactly "
     "npartitions partitions whenever there are at least that many distinct values. Each path model is replayed natively and "
-    "run through dd.from_pandas on a real frame (e2e: divisions truthful, rows preserved).")
+    "run through dd.from_pandas on a real frame (e2e: divisions truthful, rows preserved). The quantile-based divisions of set_index "
+    "(_repartition_quantiles: non-decreasing, first == column min, last == column max; set_index result truthful) are decided on "
+    "solver-enumerated frames only: partition sizes 0..k incl. single-row partitions holding the extreme value, four value patterns.")
 ASSUMPTIONS = [
     "the input must be an ndarray (the kernel's tolist() dispatch rejects plain lists); the harness passes np.array(values)",
     "dask.dataframe is imported with a stub `pyarrow` package (absent from the sandbox)",
 ]
 STUBS = ["stub pyarrow package for import"]
-ENUM = ["the sorted sequence (all non-decreasing sequences of the given length over {0,1,2,3})"]
-OUTSIDE = ["quantile-based divisions for set_index (process_val_weights / percentiles_summary: NumPy float sketches)", "sequences longer than the bound, alphabets > 4"]
+ENUM = ["the sorted sequence (all non-decreasing sequences of the given length over {0,1,2,3})", "every input of quantile_divisions (partition sizes incl. empty and single-row partitions, value pattern, target count)"]
+OUTSIDE = ["quantile sketches beyond the enumerated cases (process_val_weights / percentiles_summary are NumPy float code: no symbolic claim)", "sequences longer than the bound, alphabets > 4"]
 BOUNDS = {
     "quick": dict(length="1..6", alphabet=4, npartitions="symbolic in [1, len+2]", chunksize="symbolic in [1, len+2]"),
     "thorough": dict(length="1..9", alphabet=4, npartitions="symbolic in [1, len+3]", chunksize="symbolic in [1, len+3]"),
@@ -96,6 +98,70 @@ def mk(L, mode, pad):
     return Obligation(f"sdl[L={L},{mode}]", setup, run, e2e=e2e, e2e_every=4)
 
 
+def mk_quantiles(nparts, maxrows, maxout):
+    """quantile-based divisions for set_index / _repartition_quantiles: non-decreasing, spanning the column's min and max.
+    The sketches are NumPy float code: partition sizes, the value pattern and the target count are enumerated by the solver."""
+    import operator
+
+    def setup(e):
+        sizes = [e.int(f"rows{i}", 0, maxrows) for i in range(nparts)]
+        e.assume(lambda: sizes[0] + sum(sizes[1:]) >= 1)
+        order = e.pick("order", ("ascending", "descending", "zigzag", "constant"))
+        nout = e.int("nout", 1, maxout)
+        return sizes, order, nout
+
+    def run(e, sizes, order, nout):
+        sizes = [operator.index(x) for x in sizes]
+        nout = operator.index(nout)
+        n = sum(sizes)
+        if order == "ascending":
+            vals = [float(3 * i) for i in range(n)]
+        elif order == "descending":
+            vals = [float(3 * (n - i)) for i in range(n)]
+        elif order == "zigzag":
+            vals = [float((i * 7) % 11) for i in range(n)]
+        else:
+            vals = [5.0] * n
+        df = pd.DataFrame({"a": vals, "b": range(n)})
+        # partitions of exactly the given sizes (empty ones included)
+        parts, pos = [], 0
+        for sz in sizes:
+            parts.append(df.iloc[pos:pos + sz])
+            pos += sz
+        import dask
+        ddf = dd.from_delayed([dask.delayed(p) for p in parts], meta=df.iloc[:0], verify_meta=False)
+        q = ddf.a._repartition_quantiles(nout).compute(scheduler="sync")
+        qs = list(q)
+        for x, y in zip(qs, qs[1:]):
+            e.check(x <= y, f"quantile divisions not non-decreasing: {qs}")
+        e.check(qs[0] == min(vals) and qs[-1] == max(vals), f"quantile divisions {qs} do not span the data's min/max [{min(vals)}, {max(vals)}] (partition sizes {sizes})")
+        if len(set(vals)) < 2:
+            return [float(x) for x in qs]       # set_index on a single distinct key is outside this property (shuffle plumbing, C40)
+        out = ddf.set_index("a", npartitions=nout)
+        d = out.divisions
+        if d[0] is None:
+            return [float(x) for x in qs]       # unknown divisions: nothing is reported, nothing to be untruthful about
+        e.check(list(d) == sorted(d), f"set_index divisions not sorted: {d}")
+        got = out.compute(scheduler="sync")
+        e.check(sorted(got.index.tolist()) == sorted(vals) and sorted(got.b.tolist()) == list(range(n)), "set_index changed the multiset of rows")
+        import dask as _d
+        frames = _d.compute(*out.to_delayed(), scheduler="sync")
+        m = len(frames)
+        e.check(m == len(d) - 1, "npartitions != len(divisions)-1")
+        for i, fr in enumerate(frames):
+            for x in fr.index:
+                ok = (d[i] <= x <= d[i + 1]) if i == m - 1 else (d[i] <= x < d[i + 1])
+                e.check(ok, f"set_index: partition {i} of divisions {d} holds index {x} (partition sizes {sizes}, values {order})")
+        return [float(x) for x in qs]
+
+    return Obligation(f"quantile_divisions[parts={nparts},rows<={maxrows},nout<={maxout}]", setup, run)
+
+
+CHUNK_PATHS = 40
+
+
 def obligations(tier):
     Ls, pad = ((1, 2, 3, 4, 5, 6), 2) if tier == "quick" else ((1, 2, 3, 4, 5, 6, 7, 8, 9), 3)
-    return [mk(L, m, pad) for L in Ls for m in ("npartitions", "chunksize")]
+    obs = [mk(L, m, pad) for L in Ls for m in ("npartitions", "chunksize")]
+    obs.append(mk_quantiles(3, 2, 2) if tier == "quick" else mk_quantiles(3, 4, 3))
+    return obs
